@@ -7,7 +7,7 @@ INFO = {
     'level': 'other',
     'explanation': (
         'Two-run symbolic execution of the real rate() in one path (sx engine, mode R): the game as given, and the same game with the teams '
-        'listed in a permuted order (ranks permuted alongside) and/or the players of every team reversed. Both runs share their primitive '
+        'listed in a permuted order (ranks permuted alongside) and/or the players of every team reversed (rotated as well for a three-player team). Both runs share their primitive '
         'applications (eager congruence), so the obligation "posterior of every player identical" is a syntactic identity after normalisation or '
         'a small z3 query. Per shape: every weak order x every permutation of the teams (n! for n <= 3, 4 in thorough); for the two '
         'partial-pairing models only permutations that keep mutually tied teams in their original relative order, as the property states. '
@@ -65,6 +65,7 @@ def jobs(tier):
                 add(key, (1, 1, 1), W, 300, 20)
             for W in [(0, 1, 2), (1, 0, 1), (0, 0, 0)]:
                 add(key, (2, 1, 2), W, 600, 100, maxperm=2)
+            add(key, (3, 1), (1, 0), 600, 60)
             if tier == 'thorough':
                 for W in H.weak_orders(4):
                     add(key, (1, 1, 1, 1), W, 2400, 600)
@@ -81,7 +82,9 @@ def _run(key, shape, ranks, perm, reverse, mk, ls=False):
         m, teams = H.build_game(Model, shape, mk, limit_sigma=ls)
         r = list(ranks)
         if which == 1:
-            if reverse:
+            if reverse == 'rot':
+                teams = [t[1:] + t[:1] for t in teams]
+            elif reverse:
                 teams = [list(reversed(t)) for t in teams]
             teams = [teams[p] for p in perm]
             r = [ranks[p] for p in perm]
@@ -91,7 +94,7 @@ def _run(key, shape, ranks, perm, reverse, mk, ls=False):
             # map back to the original presentation
             back = [None] * len(shape)
             for k, p in enumerate(perm):
-                back[p] = list(reversed(vals[k])) if reverse else vals[k]
+                back[p] = (vals[k][-1:] + vals[k][:-1]) if reverse == 'rot' else list(reversed(vals[k])) if reverse else vals[k]
             vals = back
         out.append(vals)
     return out
@@ -115,6 +118,9 @@ def run_job(spec, ctx):
         variants.append((tuple(range(n)), True))
         if perms:
             variants.append((perms[-1], True))
+    if any(k > 2 for k in shape):
+        # three or more teammates: a rotation as well (an accumulation that depends on where the largest value comes)
+        variants.append((tuple(range(n)), 'rot'))
     for perm, reverse in variants:
         if ctx.candidates:
             break
@@ -137,7 +143,7 @@ def run_job(spec, ctx):
                         if tx.eq(ty) or core.is_zero(core.som(tx - ty)):
                             continue
                         diffs.append(tx != ty)
-            desc = f'teams permuted by {perm}' + (' and players reversed' if reverse else '') + ': same posterior for every player'
+            desc = f'teams permuted by {perm}' + (' and players rotated' if reverse == 'rot' else ' and players reversed' if reverse else '') + ': same posterior for every player'
             sample = {'model': key, 'shape': list(shape), 'ranks': list(ranks), 'perm': list(perm), 'players_reversed': reverse}
             if not diffs:
                 ctx.ob(desc + ' (syntactic identity)', 'syntactic', sample=sample)
